@@ -43,7 +43,13 @@ owner = {}
 for m in re.finditer(r'^fn (\S+<impl at [^\n]*?>::deref::__stability)\(\)[^\n]*\n(?:.*\n)*?.*?<(\w+) as Deref>::deref::__static_ref_initialize', text, re.M):
     owner[m.group(1).replace('__stability', '__static_ref_initialize')] = m.group(2)
 ip.static_owner = lambda n: owner.get(n)
-models.install(ip); models.install2(ip)
+ip.alloc_static = {}
+for crate, txt in (('nsym', text), ('vstd', open('/tmp/probe/vstd.mir').read())):
+    for m in re.finditer(r'^(alloc\d+) \(static: ([^,]+),', txt, re.M):
+        nm = m.group(2).strip(); full = ('vstd::' + nm) if crate == 'vstd' else nm
+        cands = [n for n in fns if n == full or n.endswith('::' + nm)]
+        ip.alloc_static[(crate, m.group(1))] = ([n for n in cands if n.startswith('vstd::') == (crate == 'vstd')] or cands or [full])[0]
+models.install(ip); models.install2(ip); models.install3(ip)
 entry = sys.argv[1]
 t = time.time()
 orig_run_path = ip.run
